@@ -358,6 +358,16 @@ class ConnectionManager:
                 (connect_task, closing_task),
                 return_when=FIRST_COMPLETED,
             )
+            # Do not leave the loser of the race pending: an abandoned connect attempt would
+            # connect after close(), and the closing waiters would pile up for each reconnect.
+            closing_task.cancel()
+            connect_task.cancel()
+
+            if self._connection and self._is_closing.is_set():
+                # Connected while closing. close() could not see this connection.
+                transport, _ = self._connection
+                transport.close()
+                self._connection = None
 
             if self._connection:
                 _, protocol = self._connection
@@ -367,6 +377,7 @@ class ConnectionManager:
                     (done_task, closing_task2),
                     return_when=FIRST_COMPLETED,
                 )
+                closing_task2.cancel()
 
                 if not self._is_closing.is_set():
                     _LOGGER.warning("Connection lost")
